@@ -191,7 +191,7 @@ def generate(tier, seed):
     import verde as vd
     rnd = random.Random(seed)
     cases = []
-    nper = 40 if tier == "quick" else 500
+    nper = 80 if tier == "quick" else 500
     for stream in ("interior", "cluster", "edges", "outside"):
         for i in range(nper):
             lattice = stream == "edges" or rnd.random() < 0.5
